@@ -391,6 +391,13 @@ func (b *backend) initialize(ctx context.Context, _ *logical.InitializationReque
 		return err
 	}
 
+	// A revocation record may have been written just before the previous
+	// process stopped, without the CRL having been rebuilt; a retried
+	// revocation then only sees "already revoked". Have the first CRL
+	// reader or writer after start-up rebuild instead of trusting what is
+	// on disk.
+	b.crlBuilder.requestRebuildIfActiveNode(b)
+
 	// Initialize also needs to populate our certificate and revoked certificate count
 	err = b.initializeStoredCertificateCounts(ctx)
 	if err != nil {
